@@ -515,12 +515,18 @@ impl CosmosRouter for MtRouter {
 
     fn query(
         &self,
-        _api: &dyn Api,
-        _storage: &dyn Storage,
-        _block: &BlockInfo,
-        _request: QueryRequest<Empty>,
+        api: &dyn Api,
+        storage: &dyn Storage,
+        block: &BlockInfo,
+        request: QueryRequest<Empty>,
     ) -> AnyResult<Binary> {
-        bail!("the staking contract makes no chain queries")
+        match request {
+            QueryRequest::Bank(q) => {
+                let mq = MockQuerier::<Empty>::default();
+                self.bank.query(api, storage, &mq, block, q)
+            }
+            _ => bail!("only bank queries are served by the reference chain"),
+        }
     }
 
     fn sudo(
